@@ -109,6 +109,19 @@ def expRegions (tags : List Tag) : List Region :=
   | some (.mmap _ _ ents) => ents.map fun e => ⟨e.addr, e.len, normType e.ty⟩
   | _ => []
 
+/-- the first `k` entries with their type normalised -/
+def normEnts : Nat → List MemEntry → List MemEntry
+  | 0, es => es
+  | _ + 1, [] => []
+  | k + 1, e :: es => { e with ty := normType e.ty } :: normEnts k es
+
+/-- the tag list after `VisitMemRegions` has shown the first `k` entries of the first memory map
+to its visitor: their type fields hold the normalised type, everything else is as before -/
+def normFirst (k : Nat) : List Tag → List Tag
+  | [] => []
+  | .mmap esz ver ents :: rest => .mmap esz ver (normEnts k ents) :: rest
+  | x :: rest => x :: normFirst k rest
+
 /-- (fields, RGB layout) — the pointer is not part of the expectation -/
 def expFb (tags : List Tag) : Option (List Nat × Option (List UInt8)) :=
   match firstOf 8 tags with
